@@ -636,10 +636,29 @@ func (b *builder) buildC06() {
 			copy(c.Msgs[p+1:], c.Msgs[p:])
 			c.Msgs[p] = tiny
 		}
+		end := b.pickEnd()
+		if c.Msgs != nil && b.r.Chance(1, 20) {
+			// the stream ends with a message whose empty line is a bare CR and whose body is empty,
+			// and the receiver tells the parser that no more data will come
+			last := &c.Msgs[len(c.Msgs)-1]
+			last.Blank, last.Body = "\r", nil
+			if k := last.FirstOf("content-length"); k >= 0 {
+				if b.r.Chance(1, 2) || len(last.Hdrs) < 2 { // (a message keeps at least one header line)
+					last.Hdrs[k].Val = "0"
+				} else {
+					last.Hdrs = append(last.Hdrs[:k:k], last.Hdrs[k+1:]...)
+				}
+			}
+			if n := len(last.Hdrs); n > 0 && last.Hdrs[n-1].Term == "\r" {
+				last.Hdrs[n-1].Term = "\r\n"
+			}
+			c.Cfg.EOFFlag = true
+			end = b.r.PickInt(endEOFWith, endEOFAfter)
+		}
 		limitStream(&c)
 		s := c.Stream()
 		b.sc.Conns = append(b.sc.Conns, c)
-		plans = append(plans, connPlan{conn: i, cuts: b.cuts(s, b.pickSched(len(s))), end: b.pickEnd(), t0: int64(b.r.Intn(3000))})
+		plans = append(plans, connPlan{conn: i, cuts: b.cuts(s, b.pickSched(len(s))), end: end, t0: int64(b.r.Intn(3000))})
 	}
 	b.schedule(plans)
 	if b.r.Chance(1, 6) {
